@@ -742,16 +742,28 @@ func (multi *MultiEpoch) processSlotTransactions(
 	gsfaReadersLoaded bool,
 ) error {
 
+	if filter != nil {
+		// The account lists come from the client: reject malformed keys here instead of
+		// panicking in MustPublicKeyFromBase58 below.
+		for _, list := range [][]string{filter.AccountInclude, filter.AccountExclude, filter.AccountRequired} {
+			for _, acc := range list {
+				if _, err := solana.PublicKeyFromBase58(acc); err != nil {
+					return status.Errorf(codes.InvalidArgument, "invalid account %q: %v", acc, err)
+				}
+			}
+		}
+	}
+
 	filterOutTxn := func(tx solana.Transaction, meta any) bool {
 		if filter == nil {
 			return true
 		}
 
-		if !(*filter.Vote) && IsSimpleVoteTransaction(&tx) { // If vote is false, we should filter out vote transactions
+		if filter.Vote != nil && !(*filter.Vote) && IsSimpleVoteTransaction(&tx) { // If vote is false, we should filter out vote transactions
 			return false
 		}
 
-		if !(*filter.Failed) { // If failed is false, we should filter out failed transactions
+		if filter.Failed != nil && !(*filter.Failed) { // If failed is false, we should filter out failed transactions
 			err := getErr(meta)
 			if err != nil {
 				return false
@@ -979,7 +991,11 @@ func (multi *MultiEpoch) processSlotTransactions(
 								}
 							}
 
-							buffer.add(txResp.Slot, *txResp.Index, txResp)
+							var position uint64
+							if txResp.Index != nil { // old archives carry no position index
+								position = *txResp.Index
+							}
+							buffer.add(txResp.Slot, position, txResp)
 						}
 					}
 				}
